@@ -210,7 +210,20 @@ def check(ctx):
         run.add('C01.place', 'dznpy.adv_shell', f'Builder.{meth}', f'constructor.{attr}', ok,
                 f'the constructor carrying the links is {what}' if ok else f'the constructor is not {what}')
     build = prog.func('adv_shell', 'Builder.build')
-    ok = any(isinstance(n, ast.Call) and getattr(n.func, 'id', '') == 'create_constructor' for n in iter_own_nodes(build.node))
+    # the constructor of the C++ elements the files are rendered from is the result of create_constructor - wherever on the way
+    # from build() the elements are put together
+    ok = False
+    cpp_cls = prog.cls('adv_shell.common', 'CppElements')
+    reach = {f.fq for f in ctx.cg.reachable([build])} | {build.fq}
+    for f_ in prog.all_functions():
+        if f_.fq not in reach:
+            continue
+        for n in iter_own_nodes(f_.node):
+            if isinstance(n, ast.Call) and isinstance(n.func, (ast.Name, ast.Attribute)) and prog.resolve_expr_symbol(f_.module, n.func) is cpp_cls:
+                arg = prog.bind_call(f_.module, n).get('constructor')
+                if isinstance(arg, ast.Name):
+                    arg = ctx.cg.env(f_).single_def(arg.id)
+                ok = ok or (isinstance(arg, ast.Call) and getattr(arg.func, 'id', getattr(arg.func, 'attr', '')) == 'create_constructor')
     run.add('C01.place', 'dznpy.adv_shell', 'Builder.build', 'create_constructor call', ok,
             'build() creates the constructor from create_constructor' if ok else 'build() does not call create_constructor')
 
